@@ -1136,3 +1136,8 @@ Proof.
   intros q keys vals Hl Hv Hfp G1 G4 G6 G8.
   exact (H3 q keys vals Hl Hv Hfp G1 G4 G6 (guard_F7_fixed _ _ _ _ _) G8).
 Qed.
+
+Lemma method_list_rejected : forall ms,
+  (create_method_matcher false ms = Rejected <-> In "" ms) /\
+  (create_method_matcher true ms = Rejected <-> In "" ms \/ guard_F4 false ms = true).
+Proof. intro ms. split; [apply create_method_rejected | apply create_method_rejected_fx4]. Qed.
